@@ -105,6 +105,14 @@ func (g *srvGen) stamp(s int) *drv.U128 {
 	case x < 18 && g.max != nil:
 		return &drv.U128{Hi: g.max.Hi, Lo: g.max.Lo + 1} // future
 	case x < 19 && own != nil && own.Lo > 0:
+		switch g.r.Intn(3) {
+		case 0:
+			return &drv.U128{Hi: own.Hi + 1, Lo: own.Lo} // same low word, higher high word
+		case 1:
+			if own.Hi > 0 {
+				return &drv.U128{Hi: own.Hi - 1, Lo: own.Lo} // same low word, lower high word
+			}
+		}
 		return &drv.U128{Hi: own.Hi, Lo: own.Lo - 1} // stale
 	}
 	if own != nil {
@@ -159,8 +167,11 @@ func genSCase(r *drv.Rng, prof string) drv.SCase {
 	if prof == "C06" && !c.NoFwd && r.Chance(1, 12) {
 		return genMassResolve(g)
 	}
+	if prof == "C06" && !c.NoFwd && r.Chance(1, 12) {
+		return genHandoverReuse(g)
+	}
 	s1 := g.connect(true)
-	g.announce(s1, drv.U128{Hi: uint64(r.Intn(2)), Lo: uint64(1 + r.Intn(3))})
+	g.announce(s1, drv.U128{Hi: uint64(r.Intn(3)), Lo: uint64(1 + r.Intn(3))})
 	steps := 6 + r.Intn(16)
 	for i := 0; i < steps; i++ {
 		ls := g.liveList()
@@ -352,6 +363,46 @@ func genMassResolve(g *srvGen) drv.SCase {
 	return *g.c
 }
 
+// genHandoverReuse: every client numbers its operations from 1.  The old primary leaves operations held; the new
+// primary sends its own forward references under the same ids; they must be held and acknowledged like any other.
+func genHandoverReuse(g *srvGen) drv.SCase {
+	r := g.r
+	a := g.connect(true)
+	ida := drv.U128{Hi: uint64(r.Intn(2)), Lo: uint64(1 + r.Intn(3))}
+	g.announce(a, ida)
+	send := func(s int, el drv.U128, ops ...drv.OpSpec) {
+		st := drv.SStep{K: "ops", S: s}
+		for _, op := range ops {
+			e := el
+			op.Elec = &e
+			st.Ops = append(st.Ops, op)
+		}
+		g.add(st)
+	}
+	n := 1 + r.Intn(3)
+	for i := 1; i <= n; i++ { // held by A: groups 5.. never arrive
+		send(a, ida, drv.OpSpec{ID: uint64(i), NI: 1, Kind: "ADD", T: "v4", Key: uint64(i), NHG: uint64(4 + i)})
+	}
+	b := g.connect(true)
+	idb := drv.U128{Hi: ida.Hi, Lo: ida.Lo + 1}
+	g.announce(b, idb)
+	if r.Chance(1, 2) {
+		g.add(drv.SStep{K: drv.Pick(r, "close", "abort"), S: a})
+		g.drop(a)
+	}
+	// B numbers from 1 as well: entries ahead of group 2, then the next-hop and the group
+	for i := 1; i <= n; i++ {
+		t := drv.Pick(r, "v4", "v6", "mpls")
+		key := map[string]uint64{"v4": uint64(i), "v6": uint64(1 + i%2), "mpls": uint64(100 * i)}[t]
+		send(b, idb, drv.OpSpec{ID: uint64(i), NI: 2, Kind: "ADD", T: t, Key: key, NHG: 2})
+	}
+	send(b, idb, drv.OpSpec{ID: uint64(n + 1), NI: 2, Kind: "ADD", T: "nh", Key: 1})
+	send(b, idb, drv.OpSpec{ID: uint64(n + 2), NI: 2, Kind: "ADD", T: "nhg", Key: 2, NHs: [][2]uint64{{1, 1}}})
+	g.nextID = uint64(n + 10)
+	g.add(drv.SStep{K: "get", Get: &drv.GetSpec{NI: "all", AFT: "ALL"}})
+	return *g.c
+}
+
 // genC08: a primary builds RIB shapes biased to shared / missing / cyclic backup groups and
 // cross-instance references, then Flush requests walk the decision table.
 func genC08(g *srvGen) drv.SCase {
@@ -382,8 +433,8 @@ func genC08(g *srvGen) drv.SCase {
 				switch r.Intn(5) {
 				case 0: // shared backup
 					op.Bk = 3
-				case 1: // backup that is never installed
-					op.Bk = 7
+				case 1: // backup that is never installed (7), or whose id is also the index of an installed next-hop
+					op.Bk = drv.Pick(r, uint64(7), 7, uint64(ng+1), uint64(ng+1), 4)
 				case 2: // cyclic / self
 					op.Bk = uint64(1 + (gi % ng))
 				}
@@ -591,6 +642,7 @@ func (e *electionTracker) mustReject(s int, op drv.OpSpec) bool {
 func runOracle(prop string, c drv.SCase, x *drv.SRun, obs []drv.SObs, snaps []string) string {
 	el := &electionTracker{last: map[int]*drv.U128{}}
 	liveParams := map[int][3]int{} // C09: session -> (redundancy, persistence, ack type) it holds
+	spoke := map[int]bool{}        // C09: the session has sent a message that was read
 	owner := map[uint64]int{}      // op id -> session that sent it
 	terminal := map[string]string{} // "sess/id" -> FAILED | RIB_PROGRAMMED
 	fibAck := map[string]bool{}
@@ -709,6 +761,21 @@ func runOracle(prop string, c drv.SCase, x *drv.SRun, obs []drv.SObs, snaps []st
 		if prop == "C09" {
 			if p := checkC09(st, o, i, el, x); p != "" {
 				return p
+			}
+			// a second parameters message on a stream is MODIFY_NOT_ALLOWED whatever it carries; an election id from a
+			// session that has not negotiated elected-primary mode is ELECTION_ID_IN_ALL_PRIMARY whatever the server has learnt
+			switch {
+			case st.K == "params" && spoke[st.S] && x.Sess[st.S] != nil && (o.End != nil || len(o.Resps) > 0):
+				if o.End == nil || o.End.Code.String() != "FailedPrecondition" || o.End.Reason != "MODIFY_NOT_ALLOWED" {
+					return fmt.Sprintf("step %d: session parameters sent after another message on the same stream: %s, specification requires the RPC to end with FailedPrecondition/MODIFY_NOT_ALLOWED", i, drv.OutText(drv.ObsOut{Resps: o.Resps, End: o.End}))
+				}
+			case st.K == "elect" && !st.ID.IsZero() && len(o.Resps) > 0 && o.End == nil:
+				if p, ok := liveParams[st.S]; !ok || p[0] != 1 {
+					return fmt.Sprintf("step %d: an election id from a session that has not negotiated elected-primary mode was answered (%s) instead of ending the RPC with FailedPrecondition/ELECTION_ID_IN_ALL_PRIMARY", i, drv.OutText(drv.ObsOut{Resps: o.Resps}))
+				}
+			}
+			if (st.K == "params" || st.K == "elect" || st.K == "ops" || st.K == "multi" || st.K == "none") && (o.End != nil || len(o.Resps) > 0) {
+				spoke[st.S] = true
 			}
 			// parameters are accepted only if every other live session - negotiated or not - holds the same ones
 			// (a session that has connected and not negotiated holds the defaults: ALL_PRIMARY / DELETE / RIB_ACK)
